@@ -379,3 +379,105 @@ func makemsgDetectIndex(c *Ctx, mk *FuncInfo) int {
 	}
 	return detIdx
 }
+
+func init() {
+	register(&Rule{ID: "R5.field-list-persistent", Props: []string{"C05", "C01", "C10"}, Floor: 3,
+		Text: "a field.List is a value that shares its buffer with every copy of it: the previous object of a SET (which fenceMatch tests the WHERE filter against), a notification still queued for a live connection, and the new object all hold lists that may share memory, so the list is persistent — in internal/field no function writes into memory that belongs to an existing list: every destination of copy(…) and every indexed store is a buffer created in that function (make, a local array), never the slice obtained from a list's pointer (ptob(list.p)) or a parameter; an update in place changes what the previous object and queued notifications show",
+		Run:  ruleFieldListPersistent})
+}
+
+func ruleFieldListPersistent(c *Ctx) {
+	n := 0
+	for _, fn := range c.AllFuncs("internal/field") {
+		info := fn.Info()
+		// fresh buffers: locals defined by make(…) or declared as arrays
+		fresh := map[types.Object]bool{}
+		ast.Inspect(fn.Decl.Body, func(x ast.Node) bool {
+			switch s := x.(type) {
+			case *ast.AssignStmt:
+				if len(s.Lhs) == len(s.Rhs) {
+					for i, r := range s.Rhs {
+						if call, ok := ast.Unparen(r).(*ast.CallExpr); ok {
+							if id, ok := ast.Unparen(call.Fun).(*ast.Ident); ok && id.Name == "make" {
+								if lid, ok := ast.Unparen(s.Lhs[i]).(*ast.Ident); ok {
+									fresh[info.ObjectOf(lid)] = true
+								}
+							}
+						}
+					}
+				}
+			case *ast.ValueSpec:
+				for _, nm := range s.Names {
+					if o := info.ObjectOf(nm); o != nil {
+						if _, isArr := o.Type().Underlying().(*types.Array); isArr && len(s.Values) == 0 {
+							fresh[o] = true
+						}
+					}
+				}
+			}
+			return true
+		})
+		rootOf := func(e ast.Expr) types.Object {
+			for {
+				switch x := ast.Unparen(e).(type) {
+				case *ast.SliceExpr:
+					e = x.X
+					continue
+				case *ast.IndexExpr:
+					e = x.X
+					continue
+				case *ast.Ident:
+					return info.ObjectOf(x)
+				}
+				return nil
+			}
+		}
+		judge := func(dst ast.Expr, at ast.Node, what string) {
+			t := info.TypeOf(dst)
+			if t == nil {
+				return
+			}
+			// only byte buffers
+			switch u := t.Underlying().(type) {
+			case *types.Slice:
+				if b, ok := u.Elem().Underlying().(*types.Basic); !ok || b.Kind() != types.Byte && b.Kind() != types.Uint8 {
+					return
+				}
+			case *types.Basic:
+				if u.Kind() != types.Byte && u.Kind() != types.Uint8 {
+					return
+				}
+			default:
+				return
+			}
+			n++
+			root := rootOf(dst)
+			key := funcName(fn.Obj) + "→" + what + " " + exprStr(dst)
+			if root != nil && fresh[root] {
+				c.ok(key, at.Pos(), true, "the destination is a buffer created in this function")
+				return
+			}
+			c.bad(key, at.Pos(), "%s writes into %s, which is not a buffer created in this function: it is memory of an existing list (the receiver's, obtained through ptob, or a caller's), and every copy of that list — the previous object of the SET that fenceMatch evaluates, a notification queued for a live connection — changes with it", what, exprStr(dst))
+		}
+		ast.Inspect(fn.Decl.Body, func(x ast.Node) bool {
+			switch s := x.(type) {
+			case *ast.CallExpr:
+				if id, ok := ast.Unparen(s.Fun).(*ast.Ident); ok && id.Name == "copy" && len(s.Args) == 2 {
+					if _, isB := info.Uses[id].(*types.Builtin); isB {
+						judge(s.Args[0], s, "copy into")
+					}
+				}
+			case *ast.AssignStmt:
+				for _, l := range s.Lhs {
+					if ix, ok := ast.Unparen(l).(*ast.IndexExpr); ok {
+						if _, isMap := info.TypeOf(ix.X).Underlying().(*types.Map); !isMap {
+							judge(l, s, "store to")
+						}
+					}
+				}
+			}
+			return true
+		})
+	}
+	c.stat("buffer_writes_in_field_package", n)
+}
